@@ -507,7 +507,7 @@ def process_keyqueue(codes: Sequence[int], more_available: bool) -> tuple[list[s
             raise MoreInputRequired()
         if codes[1:] and codes[1] < 256:
             db = chr(code) + chr(codes[1])
-            if within_double_byte(db, 0, 1):
+            if within_double_byte(bytes(codes[:2]), 0, 1):
                 return [db], codes[2:]
 
     if em == "utf8" and 127 < code < 256:
